@@ -604,6 +604,12 @@ class Ctx(object):
             t = smt.term(s)
             out.append('(< %s %s)' % (_rat(lo), t))
             out.append('(< %s %s)' % (t, _rat(hi)))
+        if 'sqrt2' in S._KAPPA_SYMS:
+            save = S.current_ctx()
+            S.set_ctx(None)
+            p2 = S._KAPPA_SYMS['sqrt2'] * S._KAPPA_SYMS['sqrt2']
+            S.set_ctx(save)
+            out.append('(= %s 2)' % smt.term(p2))
         if 'pi' in S._KAPPA_SYMS and 'rsqrtpi' in S._KAPPA_SYMS:
             save = S.current_ctx()
             S.set_ctx(None)
